@@ -107,6 +107,10 @@ func genC02(t *rapid.T) c02Case {
 	return c02Case{Frame: sanitizeInterior(frame), Origin: origin}
 }
 
+// c02PriorFrame is a valid fragmented 2019 frame decoded into the re-used message before each case.
+var c02PriorFrame = ref.Spec{ID: 0x0801, Version2019: true, VersionByte: 1, Fragmented: true, Total: 3, No: 2, Serial: 9,
+	PhoneBCD: ref.PhoneBCDFromDigits("13800138000", 10), Body: []byte{1, 2, 3}}.Build()
+
 func checkC02(c c02Case, _ *kit.Collector) kit.Result {
 	return checkC02Frame(c.Frame, c.Origin)
 }
@@ -131,6 +135,26 @@ func checkC02Frame(frame []byte, origin string) kit.Result {
 	if (err == nil) != (why == "") {
 		res.Err = kit.Fail("frame %x: library says err=%v, reference says %q (\"\" = well-formed)", head(frame), err, why)
 		return res
+	}
+	// the verdict is a function of the byte string: a message value that decoded another (fragmented) frame
+	// before must accept / reject the same strings and read the same fields
+	reused := jt808.NewJTMessage()
+	if e0 := reused.Decode(append([]byte(nil), c02PriorFrame...)); e0 != nil {
+		res.Err = kit.Fail("HARNESS-ERROR prior frame rejected: %v", e0)
+		return res
+	}
+	err2 := reused.Decode(append([]byte(nil), frame...))
+	if (err2 == nil) != (err == nil) {
+		res.Err = kit.Fail("frame %x: a fresh JTMessage says err=%v, one that decoded a fragmented frame before says err=%v", head(frame), err, err2)
+		return res
+	}
+	if err == nil {
+		a, b := msg.Header, reused.Header
+		if a.ID != b.ID || a.SerialNumber != b.SerialNumber || a.SubPackageSum != b.SubPackageSum || a.SubPackageNo != b.SubPackageNo ||
+			a.TerminalPhoneNo != b.TerminalPhoneNo || a.ProtocolVersion != b.ProtocolVersion || *a.Property != *b.Property || !bytes.Equal(msg.Body, reused.Body) {
+			res.Err = kit.Fail("frame %x decodes differently on a JTMessage that decoded a fragmented frame before", head(frame))
+			return res
+		}
 	}
 	if why != "" {
 		return res
